@@ -275,6 +275,14 @@ class C19(Check):
             shapes['mapping'] = {kt: vt for (kt, _), (vt, _) in frs}
         if all(sep not in kt for (kt, _), _ in frs):
             shapes['strings'] = [kt + sep + vt for (kt, _), (vt, _) in frs]
+        # the same items as one-shot iterables (a generator, an iterator, a map object): consumed exactly once
+        pick = (len(frs) + case['items'][0][0] if case['items'] else 0) % 3
+        if pick == 0:
+            shapes['pairs_generator'] = ((k, v) for k, v in list(shapes['pairs']))
+        elif pick == 1 and 'strings' in shapes:
+            shapes['strings_iterator'] = iter(list(shapes['strings']))
+        elif pick == 2:
+            shapes['pairs_map'] = map(tuple, [list(p_) for p_ in shapes['pairs']])
         results = {}
         for name, shape in shapes.items():
             r = self.call(shape, sep=sep, parse_keys=pk)
@@ -324,7 +332,7 @@ class C19(Check):
         res.nontrivial = nonlit or sepin or dup or trip
         if res.nontrivial:
             st['nontrivial'] += 1
-            res.sample = {'shapes': {k: repr(v)[:200] for k, v in shapes.items()}, 'sep': sep, 'parse_keys': pk,
+            res.sample = {'shapes': {k: repr(v)[:200] for k, v in shapes.items() if isinstance(v, (list, dict))}, 'sep': sep, 'parse_keys': pk,
                           'expected': repr(expected)[:200]}
         return res
 
@@ -332,6 +340,7 @@ class C19(Check):
         k = 1 if tier == 'quick' else 20
         return {'nontrivial': 20000 * k, 'value_contains_separator_in_string_shape': 2000 * k, 'duplicate_keys': 3000 * k,
                 'tripwire_or_import_texts': 5000 * k, 'unhashable_keys': 1000 * k, 'shape_strings': 10000 * k,
+                'shape_pairs_generator': 3000 * k, 'shape_pairs_map': 3000 * k, 'shape_strings_iterator': 3000 * k,
                 'shape_mapping': 10000 * k}
 
     def extra_evidence(self, tier, agg):
